@@ -568,6 +568,14 @@ func taskScheduleHandler() {
 			}
 			t := e.Value.(*Task) //nolint:forcetypeassert // Can only be *Task.
 
+			// check if the task is due: the timer may have been set for an
+			// entry that was removed or rescheduled in the meantime
+			now := time.Now()
+			if now.Before(t.executeAt) {
+				scheduleLock.Unlock()
+				continue
+			}
+
 			// process Task
 			if t.overtime {
 				// already queued and maxDelay reached
